@@ -53,6 +53,19 @@ func (w *World) pkgByPath(path string, dflt *types.Package) *types.Package {
 }
 
 func (w *World) importedPkg(p *types.Package, name string) *types.Package {
+	// import aliases used in the package's files
+	if lp := w.pkgs[p.Path()]; lp != nil {
+		for _, f := range lp.Syntax {
+			for _, im := range f.Imports {
+				if im.Name != nil && im.Name.Name == name {
+					path := strings.Trim(im.Path.Value, "\"")
+					if ip := w.pkgs[path]; ip != nil && ip.Types != nil {
+						return ip.Types
+					}
+				}
+			}
+		}
+	}
 	for _, imp := range p.Imports() {
 		if imp.Name() == name {
 			return imp
